@@ -423,7 +423,9 @@ int main(int argc, char** argv)
       // "move to the end" - which small matrices and short chains never reach. All columns are strictly diagonally dominant (well conditioned by construction).
       struct MP { int n, ut, k1, k2, shift; };
       std::vector<MP> list;
-      std::vector<int> dims = thorough ? std::vector<int>{24, 32, 40, 48, 56} : (asan ? std::vector<int>{24} : std::vector<int>{24, 32});
+      std::vector<int> dims = thorough ? (asan ? std::vector<int>{24, 32} : std::vector<int>{24, 32, 40, 48, 56}) : (asan ? std::vector<int>{24} : std::vector<int>{24, 32});
+      RunOpts omp = o;
+      omp.watchdog_s = 900;      // one case = a chain of up to 112 replacements, re-applied for every checked prefix and solve variant (minutes under ASan)
       for(int n : dims) for(int ut = 0; ut < 2; ++ut) for(int k1 : {1, 3}) for(int k2 : {5, 8, 12}) for(int shift : {1, 5}) list.push_back({n, ut, k1, k2, shift});
       auto mkcol = [](int n, int pos, int k, int shift, int sign)
       {
@@ -459,7 +461,7 @@ int main(int argc, char** argv)
             if(pos % 2 == 1 || pos == s.n - 1) h = h * 31 + run_scenario(sc, c, false);
          }
          return h;
-      }, [&](uint64_t idx, uint64_t) { const MP& s = list[idx]; return "memory-pressure n=" + std::to_string(s.n) + " utype=" + std::to_string(s.ut) + " k1=" + std::to_string(s.k1) + " k2=" + std::to_string(s.k2) + " shift=" + std::to_string(s.shift); }, o, sfx);
+      }, [&](uint64_t idx, uint64_t) { const MP& s = list[idx]; return "memory-pressure n=" + std::to_string(s.n) + " utype=" + std::to_string(s.ut) + " k1=" + std::to_string(s.k1) + " k2=" + std::to_string(s.k2) + " shift=" + std::to_string(s.shift); }, omp, sfx);
    }
    // phase 1: all 2x2 and 3x3 matrices over {-1,0,1,2}, no updates, both update types, all thresholds
    for(int n = 2; n <= 3; ++n)
